@@ -200,6 +200,15 @@ def generate(rng, tier):
             # optional white space around the commas of the list and at its end (RFC 9110 5.6.1)
             "bytes=2-4 , 0-1", "bytes=2-4 ,0-1", "bytes=2-4\t,\t0-1", "bytes=2-4 ", "bytes=-3 , 0-1", "bytes=5- , 0-1",
             "bytes=0-0 ,9-9", "bytes=2-4\t"]
+    # ranges set and then replaced or withdrawn on the same response object (a handler that applies the requested range and
+    # resets it when If-Range turns out stale): the last call alone decides
+    for L in (0, 1, 6):
+        body = body_of(L, 7)
+        pool = [r for r in single_ranges(L, 2) if r != (None, None)]
+        for kind in ("buf", "fileb", "filep", "gen", "json"):
+            for r1 in rng.sample(pool, min(len(pool), 4 if tier == "thorough" else 2)):
+                for r2tok in ["none", "empty"] + [rtok([r]) for r in rng.sample(pool, min(len(pool), 3))]:
+                    cases.append("C07 re %s %s %s %s" % (kind, hx(body), rtok([r1]), r2tok))
     for h in hdrs:
         for L in (0, 1, 10):
             cases.append("C07 hdr %s %s" % (hx(body_of(L, 4)), hx(h)))
@@ -226,6 +235,8 @@ def to_model(case):
         return ["C07 buf %s %s" % (t[2], t[3])]
     if t[1] in ("bufs", "bufu", "bufl"):
         return []          # judged by the oracle only
+    if t[1] == "re":
+        return ["C07 buf %s %s" % (t[3], "none" if t[5] == "empty" else t[5])] if t[2] == "buf" else []
     if t[1] == "hdrf":
         return ["C07 hdr %s %s" % (t[2], t[3])]      # the model answers for the representation, however it is delivered
     if t[1] in ("fileb", "filer"):
@@ -373,6 +384,31 @@ def observe_full(case):
             res.make_partial(ranges, t[2])
         calls, out = run_response(res)
         return calls, out, rep, ranges
+    if t[1] == "re":
+        from poorwsgi.response import JSONResponse
+        kind, body = t[2], unhx(t[3])
+        if kind == "json":
+            body = json.dumps([body.decode("latin-1")]).encode()
+            res, rep = JSONResponse(json.loads(body.decode())), body
+        elif kind == "gen":
+            res, rep, _ = build("C07 gen %d %s none" % (len(body), "/".join(hx(body[i:i + 2]) for i in range(0, len(body), 2))
+                                                          or "none"))
+        elif kind == "buf":
+            res, rep, _ = build("C07 buf %s none" % t[3])
+        else:
+            res, rep, _ = build("C07 %s %s 0 none" % (kind, t[3]))
+        res.make_partial(parse_rtok(t[4]))
+        if t[5] == "none":
+            res.make_partial()
+            ranges = []
+        elif t[5] == "empty":
+            res.make_partial([])
+            ranges = []
+        else:
+            ranges = parse_rtok(t[5])
+            res.make_partial(ranges)
+        calls, out = run_response(res)
+        return calls, out, rep, ranges
     peek = t[1] in ("filebk", "filerk", "filepk")
     if peek:
         case = " ".join([t[0], t[1][:-1]] + t[2:])
@@ -486,6 +522,6 @@ def lib_free_parse(hdr):
 
 def classify(case, obs):
     t = case.split()
-    if t[-1] == "none":
+    if t[-1] == "none" and t[1] != "re":
         return "trivial-norange-" + t[1]
     return "%s-%s" % (t[1], obs.split()[0])
